@@ -170,19 +170,31 @@ class Env:
             if t.get("dist"):
                 r = r.distinct()
         elif k == "case":
-            r = P.Case().when(self.term(t["w"]), self.term(t["t"])).else_(self.term(t["e"]))
+            c0 = P.Case().when(self.term(t["w"]), self.term(t["t"]))
+            c0.when(P.Field("a") == P.Field("a"), 0), c0.else_(P.Field("a"))   # discarded sibling continuations of the CASE
+            r = c0.else_(self.term(t["e"]))
         elif k == "win":
             from pypika_tortoise import analytics as an
 
             f = {"SUM": an.Sum, "ROW_NUMBER": lambda: an.RowNumber()}[t["f"]]
             r = f(*[self.term(x) for x in t["args"]])
+
+            def siblings(w):
+                # sibling windows derived from the same intermediate term and thrown away: what they partition / order by must not reach w
+                # (real columns: SQLite reads an unknown double-quoted name as a string constant, which would change nothing)
+                w.over(P.Field("b"), P.Field("a"))
+                w.orderby(P.Field("c"), P.Field("b"))
+            siblings(r)
             if t["part"] and t.get("sep"):
                 for x in t["part"]:
                     r = r.over(self.term(x))
+                    siblings(r)
             elif t["part"]:
                 r = r.over(*[self.term(x) for x in t["part"]])
+                siblings(r)
             for x in t["ord"]:
                 r = r.orderby(self.term(x))
+                siblings(r)
         elif k == "ext":
             r = EXT[t["cls"]](self)
         elif k == "vext":
